@@ -27,7 +27,7 @@
 
    PANIC-SITE INVENTORY  (grep for unwrap/expect/panic!/unreachable!/assert!/debug_assert!/indexing over
    src/client, src/service and what they call — src/stream, src/bridge, src/info, src/body, src/lib.rs,
-   src/happy_eyeballs.rs — outside #[cfg(test)]; line numbers of the tree at /repo 4332f80)
+   src/happy_eyeballs.rs — outside #[cfg(test)]; line numbers as of /repo 4f39ea6, 2026-10-01)
 
    A. sites whose condition depends on the request value: explicit [Panic site] branches below
      protocol/mod.rs:168   From<Version>::from  .expect("Unsupported HTTP protocol")   SFromVersion
